@@ -43,6 +43,33 @@ def cell_of(v):
     return ANY
 
 
+_PRIM_HELPER = re.compile(r"^savefile::(Serializer::write|Deserializer::read)_(u8|i8|u16|i16|u32|i32|u64|i64|u128|i128|usize|isize|f32|f64)$")
+_IDENTITY_MEMO = {}
+
+
+def _helper_is_identity(facts, c):
+    import os
+    if os.environ.get("SFV_NO_ATOMIC_PRIMS"):
+        return False        # development aid: compare against the fully inlined languages
+    key = (id(facts), c)
+    if key not in _IDENTITY_MEMO:
+        from . import bitprov
+        ok = False
+        kind, name = c.split("::")[1], c.rsplit("::", 1)[-1]
+        f = next((g for gid, g in facts.fns.items() if gid.startswith(f"savefile::{kind}<") and gid.endswith("::" + name) and g.get("body")), None)
+        if f is not None:
+            try:
+                be = bitprov.BitEval(facts)
+                prim = name.split("_", 1)[1]
+                ok = (be.writer(f, prim) if name.startswith("write_") else be.reader(f, prim))[0]
+            except bitprov.Unknown:
+                ok = False
+            except Exception:
+                ok = False
+        _IDENTITY_MEMO[key] = ok
+    return _IDENTITY_MEMO[key]
+
+
 def wire_classifier(an, n, argvals, env):
     c = callee(n)
     if c is None:
@@ -51,6 +78,17 @@ def wire_classifier(an, n, argvals, env):
     if c in ("savefile::Serialize::serialize", "savefile::Deserialize::deserialize"):
         t = subst_ty(n["self_ty"], tsub)
         return Ex(ev(("N", t))), None
+    m = _PRIM_HELPER.match(c)
+    if m and _helper_is_identity(an.facts, c):
+        # a primitive helper whose body rule W11 proves (bit provenance) to move exactly the value's little-endian bytes is one
+        # event of its nominal width, however the body composes it (a u128 written as two u64 halves is still 16 bytes LE)
+        w = PRIM_W[m.group(2)]
+        if m.group(1).endswith("write"):
+            return Ex(ev(("B", w, cell_of(argvals[1] if len(argvals) > 1 else None), "LE"))), None
+        s_ = an.new_slot(w)
+        # (a count read through read_usize / read_isize is not tracked as a tag value: `if n == 0 { return empty }` next to a bulk
+        # read of n elements is one language, not two)
+        return Ex(ev(("B", w, ("slot", s_), "LE"))), (None if m.group(2) in ("usize", "isize") else ("slot", s_, None))
     if c == "savefile::Serializer::raw_write_region" and len(n["args"]) >= 4:
         def fld(a, v):
             a = peel(a)
